@@ -167,21 +167,22 @@ _BISYNC = ("link universe (one version materialised as a symbolic link), long hi
 _ONEWAY = ("file/directory clashes both ways, destination-only directories with excluded files, leftover staging files, a missing "
            "destination root, a name that is not UTF-8, mtimes before 1970 and in the future, symlinked source files, directed "
            "'?' cases against multi-byte names, an induced transport failure at the remote delete, a dangling link and a link loop in source and/or destination; hard-linked destination names; names that contain the staging suffix without ending in it; a source or destination root that is a symbolic link; verdicts never rest on printed "
-           "counters when they cannot be read (inode-aware snapshots); exclude patterns that match the roots' own directory names; a successful real run must perform exactly the deletes / sends the dry run lists")
+           "counters when they cannot be read (inode-aware snapshots); exclude patterns that match the roots' own directory names; a successful real run must perform exactly the deletes / sends the dry run lists; a user's own files whose names end in the staging suffix")
 _HUB = ("model programs writeback / delwb / casrace3 (three servers), alias spellings of one file, seeded request programs under "
         "random and sequential orders, corpus programs putdir / putunder / confname (a client writing to a conflict-copy's name) / emptyloser (an empty write that loses its CAS) / confkeep (a client-owned file at a conflict-copy's name) / baddir (a refused Put into a new directory) / getempty (a fetch while the file is replaced by the empty version; reads of the live file scheduled) / lockfile / list_race / lock_identity, contents that end in zero "
         "bytes or are exactly one 256 KiB block, truncated reply streams recorded as short answers, mismatched-Put sessions; model behaviours replayed by action label (server, pc) with every reply compared to the model's")
 ADDENDA = {
-    "C02": _BISYNC, "C06": _BISYNC, "C07": _BISYNC,
+    "C02": _BISYNC, "C06": _BISYNC,
+    "C07": _BISYNC + "; two pairs whose root strings concatenate to the same text under fourteen separators (pair_concat)",
     "C04": _ONEWAY, "C14": _ONEWAY, "C15": _ONEWAY + "; for bisync: " + _BISYNC,
     "C03": _HUB, "C10": _HUB,
     "C01": "signature and delta recomputed over short reads (sizes that are no multiple of the block size), both engines; block sizes 1, 2, 3, 5 at library level (signatures from Signature::generate)",
     "C05": "bases ending in zero bytes cut inside the run; an uncorrupted pair with one literal of 3 MiB through both engines and the CLI; the CLI's output path holds, in turn, nothing / an older longer file / an older shorter file; five valid pairs patched onto /dev/full must not exit 0 (H28)",
-    "C08": "a stale, longer file at the archive's staging name; the recorded state after the completed re-run is judged too; all 810 (A, B, archive) instances over two paths x two contents in thorough (a seeded 60 in quick), every kill point each",
-    "C09": "a file in flight that replaces one of the same size; a source that shrinks between the killed run and the re-run; a 200 000-byte file (between one pipe write and one transfer chunk) in every direction; conformance tolerant of one unlogged call per thread with several jobs",
+    "C08": "five scenarios whose versions are symbolic links (every kill point, judged against the uninterrupted run); a stale, longer file at the archive's staging name; the recorded state after the completed re-run is judged too; all 810 (A, B, archive) instances over two paths x two contents in thorough (a seeded 60 in quick), every kill point each",
+    "C09": "two multi-chunk files whose names differ in one non-UTF-8 byte, two jobs; a file in flight that replaces one of the same size; a source that shrinks between the killed run and the re-run; a 200 000-byte file (between one pipe write and one transfer chunk) in every direction; conformance tolerant of one unlogged call per thread with several jobs",
     "C11": "names that a cleaning step would turn into '..' or an absolute path (NUL, blanks, line ends, per-cent escapes, full-width dots); very long refused paths (plain, control characters, backslashes, 2/3/4-byte characters at every alignment), names that contain backslashes and dots; 'refused' is recognised by effect, not by the reply's wording; the hub's stderr is a read pipe / a full device / a pipe without reader",
     "C12": "frames longer than their CBOR item (zero filler, a complete request as filler), such frames closed inside the filler, a Put under a path that is a file (request fails, session goes on), a Hello naming another version, an empty Put with a wrong hash, refused paths of multi-byte characters, staging files of dead servers in the served tree, a Put longer than its input; time-outs are re-checked with a longer limit before they count",
-    "C13": "a name that sorts before a directory's entries as a string and after them as a path, names with a backslash, a non-UTF-8 name (unsendable trees), a file named like another name's directory (blocked runs), a hub root containing colons, scripted clash histories and scripted stale-listing windows with a file/directory clash or an empty losing file, a scripted history with a client-owned file named like a conflict-copy (known finding H26 for the clashing file only); run-failed labels are reports, not alarms; the check refuses to pass when no race could be produced",
+    "C13": "stale-listing windows in which the listed version is replaced by one of the same length within the same second; a name that sorts before a directory's entries as a string and after them as a path, names with a backslash, a non-UTF-8 name (unsendable trees), a file named like another name's directory (blocked runs), a hub root containing colons, scripted clash histories and scripted stale-listing windows with a file/directory clash or an empty losing file, a scripted history with a client-owned file named like a conflict-copy (known finding H26 for the clashing file only); run-failed labels are reports, not alarms; the check refuses to pass when no race could be produced",
     "C16": "a zero block and a block tuned to byte sum m*65521, each reached by sliding; multi-MiB sources whose matches all sit off the block grid; first matches just before and just after a normalisation point; a 24 MiB run of new data before a known tail (thorough); engine / signature block-size mismatch at the library level",
     "C17": "marathons over data swinging between long runs of low and high bytes; 5003 consecutive slides at windows 65536 / 65535 / 56000 / 32768; marathon runs of 26-70 million consecutive slides judged at checkpoints by RollingTrace!New",
     "C18": "name sets whose byte order differs from their path order, and one of names that look like staging files, conflict-copies and dot-files, one where each path is an ancestor of the next; tree results compared as sets",
